@@ -51,12 +51,16 @@ RefJobs ==
   LET Ds == IF Q THEN <<{1}, {2}, {1, 2}, {1, 3}>> ELSE <<{1}, {2}, {3}, {1, 2}, {1, 3}, {2, 3}, {1, 2, 3}>>
       Gs == <<{1}, {2}, {3}, {1, 2}, {1, 3}, {2, 3}, {1, 2, 3}>>
       mk(a, b, c, di, g, z) == [ks |-> <<RefKindSeq[a], RefKindSeq[b], RefKindSeq[c]>>, gs |-> g, via |-> (z % 2 = 1), D |-> Ds[di],
-                                fwd |-> RefFD[(z \div 2) % 5 + 1][1], decoy |-> RefFD[(z \div 2) % 5 + 1][2]]
-      reps == IF Q THEN {0} ELSE {0, 3, 6}
+                                fwd |-> RefFD[((z \div 2) % 5) + 1][1], decoy |-> RefFD[((z \div 2) % 5) + 1][2]]
+      reps == IF Q THEN {0} ELSE {0, 3}
       K == 1..6
-      sDeep == {mk(a, b, c, di, {}, a + 2 * b + 3 * c + 5 * di + r) : a \in K, b \in K, c \in K, di \in DOMAIN Ds, r \in reps}
-      sFlat == {mk(a, b, c, di, Gs[(a + b + c + di + r) % 7 + 1], a + 3 * b + c + 7 * di + r) :
-                 a \in K, b \in K, c \in (IF Q THEN {((a + b) % 6) + 1} ELSE K), di \in DOMAIN Ds, r \in reps}
+      Lat == {t \in K \X K \X K : t[3] = ((t[1] + t[2]) % 6) + 1}          \* every pair of kinds at every pair of levels
+      \* quick: all 216 chains of kinds for D = {1} (the label of the outermost expansion used at all three levels),
+      \* the 36 chains of Lat for the other D and for the non-empty masks
+      sDeep == UNION {{mk(t[1], t[2], t[3], di, {}, t[1] + 2 * t[2] + 3 * t[3] + 5 * di + r) :
+                         t \in (IF Q /\ di # 1 THEN Lat ELSE K \X K \X K), r \in reps} : di \in DOMAIN Ds}
+      sFlat == {mk(t[1], t[2], t[3], di, Gs[((t[1] + t[2] + t[3] + di) % 7) + 1], t[1] + 3 * t[2] + t[3] + 7 * di) :
+                 t \in (IF Q THEN Lat ELSE K \X K \X K), di \in DOMAIN Ds}
       sOpen == IF Q THEN {}
               ELSE {[mk(a, b, ((a + b) % 6) + 1, 1, {}, a + b) EXCEPT !.fwd = TRUE, !.decoy = "PRE"] : a \in K, b \in K}
   IN {J(<<"refdepth", c.ks, c.D, c.gs, c.via, c.fwd, c.decoy>>, RefDepthProg(c), NoBins) : c \in {x \in sDeep \cup sFlat \cup sOpen : RefValid(x)}}
